@@ -74,6 +74,10 @@ def run(chk):
             raise
         return job, rec, json.load(open(summ))
     jobs = [(dbg, "debug", m, e, env) for m, e, env in modes] + [(rel, "release", m, e, env) for m, e, env in modes]
+    # the same inputs with a logger enabled at every level (as in an application): the arguments of log statements are evaluated
+    # only then; outcomes must not depend on it
+    logmodes = ("bcd", "mut")
+    jobs += [(dbg, "debug-logging", m, e, dict(env, ZVTH_LOG="trace")) for m, e, env in modes if m in logmodes]
     results = vlib.parallel(sweep, jobs, 8)
     summaries = {}
     for job, rec, summ in results:
@@ -87,6 +91,13 @@ def run(chk):
         for t, d in summ["by_type"].items():
             for k, v in d.items():
                 by_outcome[k.split(":")[0]] = by_outcome.get(k.split(":")[0], 0) + v
+    for m in logmodes:
+        a, b = summaries.get((m, "debug")), summaries.get((m, "debug-logging"))
+        if a and b:
+            for t in a["hash"]:
+                if a["hash"][t] != b["hash"].get(t):
+                    chk.violation("%s:logging" % t, "%s: the %s inputs decode differently (or panic) when a logger is enabled (outcome hash %s vs %s)" % (
+                        t, m, a["hash"][t], b["hash"].get(t)), {"type": t, "mode": m, "plain": a["by_type"].get(t), "logging": b["by_type"].get(t)})
     # debug / release parity: the hash covers input, outcome, error, remainder and the Debug rendering of every case
     for m, _, _ in modes:
         a, b = summaries.get((m, "debug")), summaries.get((m, "release"))
@@ -106,7 +117,7 @@ def run(chk):
                         x = json.loads(line)
                         if x["st"] not in ("ok", "err"):
                             chk.violation("%s:decode:%s" % (x.get("ty", x.get("enum")), x["st"]),
-                                          "%s: real decoder (release build) %s on %s" % (x.get("ty", x.get("enum")), x["st"], cc.hexs(x["in"])), cc.short(x))
+                                          "%s: real decoder (%s build) %s on %s" % (x.get("ty", x.get("enum")), bname, x["st"], cc.hexs(x["in"])), cc.short(x))
             continue
         flagged, n = cc.judge(chk, rec, wd, mode, shard=1200)
         eflag, en = judge_enum(chk, rec + ".enum", wd, mode)
